@@ -527,3 +527,39 @@ fn differential_updates() {
     }
     println!("updates: checked {} sequences, {} discrepancies", seeds, bad);
 }
+
+// ---- C02: answers do not depend on what statistics the optimizer holds (stale: gathered on a prefix of the data)
+#[test]
+fn differential_stale_statistics() {
+    let seeds: u64 = std::env::var("PROBE_SEEDS").ok().and_then(|v| v.parse().ok()).unwrap_or(400);
+    let start: u64 = std::env::var("PROBE_START").ok().and_then(|v| v.parse().ok()).unwrap_or(1);
+    let mut bad = 0;
+    for seed in start..start + seeds {
+        let mut r = Rng(seed.wrapping_mul(0xF1357AEA2E62A9C5) | 1);
+        let data = gen_data(&mut r);
+        let group = gen_group(&mut r, 2, false);
+        let proj: Vec<&str> = VARS.iter().chain(NUMVARS.iter()).chain(["g"].iter()).cloned().collect();
+        let q = format!("SELECT {} WHERE {}", proj.iter().map(|v| format!("?{}", v)).collect::<Vec<_>>().join(" "), group_text(&group));
+        let mut want: Vec<Vec<String>> = eval_group(&group, &data, None).iter().map(|s| proj.iter().map(|v| s.get(*v).map(|t| t.out()).unwrap_or_default()).collect()).collect();
+        want.sort();
+        // load a prefix through the update path, warm the statistics with a query, then add the rest through APIs that bypass the update path
+        let cut = data.default.len() / 3;
+        let early = Data { default: data.default[..cut].to_vec(), named: vec![] };
+        let mut db = load(&early);
+        let _ = execute_sparql_query("SELECT ?s WHERE { ?s ?p ?o . ?o ?q ?z }", &mut db);
+        let mut nt = String::new();
+        for (s, p, o) in &data.default[cut..] { nt.push_str(&format!("{} {} {} .\n", s.text(), p.text(), o.text())); }
+        db.parse_ntriples_and_add(&nt);
+        let mut nq = String::new();
+        for (g, ts) in &data.named { for (s, p, o) in ts { nq.push_str(&format!("{} {} {} <{}> .\n", s.text(), p.text(), o.text(), g)); } }
+        db.parse_nquads_and_add(&nq);
+        let got = std::panic::catch_unwind(std::panic::AssertUnwindSafe(|| execute_sparql_query(&q, &mut db)));
+        let mut got = match got { Ok(Ok(rows)) => rows, Ok(Err(e)) => { println!("seed {} ERROR {}\n  {}", seed, e.lines().nth(1).unwrap_or(""), q); bad += 1; continue; } Err(_) => { println!("seed {} PANIC\n  {}", seed, q); bad += 1; continue; } };
+        got.sort();
+        if got != want {
+            bad += 1;
+            println!("seed {} MISMATCH under stale statistics\n  {}\n  want {} rows {:?}\n  got  {} rows {:?}", seed, q, want.len(), &want[..want.len().min(4)], got.len(), &got[..got.len().min(4)]);
+        }
+    }
+    println!("stale statistics: checked {} queries, {} discrepancies", seeds, bad);
+}
